@@ -10,7 +10,7 @@ from .c14 import DEFAULTS, _flipbit, key_sizes, resolve_smt_key, resolve_smt_val
 
 ID = "C15"
 LEVEL = "exploration"
-BUDGET = {"quick": 5000, "thorough": 250000}
+BUDGET = {"quick": 5000, "thorough": 200000}
 RULE = (
     "case = (key_size, default, a few initial tree ops, a tracked key, a stream of "
     "updates: to keys differing from the tracked key at a drawn bit position (plus, for "
